@@ -160,6 +160,19 @@ CHECKS["C38"] = dict(
   technique="run-time postcondition on the generator + structural comparison (single configuration)",
   design_ref="5/C38", engine="rtc")
 
+CHECKS["C01"] = _bounded(
+  "Run-time contract (2-state postcondition) on the real Engine.apply_user_actions: after every "
+  "successful bundle of a seeded random history over 9 seed documents, ApplyUndoActions of the "
+  "returned undo restores the snapshot of every table (user data, formula values, metadata); at "
+  "the end the whole history is unwound to the initial snapshot. The store lemma (BaseColumn "
+  "set/unset/growto/raw_get as a total map) is proved deductively alongside.",
+  "bounded; the pre-state is settled with a Calculate first; known findings (stale sorted "
+  "lookups, undo of type changes, summary tables) in known_findings.d/C01.json", "5/C01")
+CHECKS["C03"] = _bounded(
+  "Same monitor as C01: after undo, ApplyDocActions of the bundle's stored actions must "
+  "reproduce the post-bundle snapshot of every table.",
+  "bounded; known findings: decoded error cells read as NoneType (#10), summary row ids", "5/C03")
+
 NOT_APPLICABLE = {
   "C30": "quantifies over interpreter configurations (PYTHONHASHSEED) and relates two separate "
          "processes; no pre/postcondition on a call inside one process can mention the hash seed "
